@@ -15,7 +15,23 @@ import Scico.Model.LinSolve
 namespace Scico.LinSolve
 open Matrix
 
-variable {K : Type} [Field K] [HasConj K]
+variable {K : Type} [Field K] [HasConj K] [HasIsZero K]
+
+/-- the zero test of the scalar type is exact (true of `Float ==`-style tests on a field) -/
+def LawfulIsZero (K : Type) [Zero K] [HasIsZero K] : Prop := ∀ x : K, isZ x = true ↔ x = 0
+
+theorem allNonzero_iff (hz : LawfulIsZero K) {m : Nat} (W : Vec K m) : allNonzero W = true ↔ ∀ i, W i ≠ 0 := by
+  simp only [allNonzero, List.all_eq_true, List.mem_ofFn]
+  constructor
+  · intro h i hi
+    have := h _ ⟨i, rfl⟩
+    simp [(hz (W i)).2 hi] at this
+  · rintro h _ ⟨i, rfl⟩
+    have : isZ (W i) = false := by
+      cases hb : isZ (W i) with
+      | false => rfl
+      | true => exact absurd ((hz (W i)).1 hb) (h i)
+    simp [this]
 
 theorem vsum_eq {n : Nat} (v : Fin n → K) : Vec.sum v = ∑ i, v i := by
   simp [Vec.sum, List.sum_ofFn]
@@ -146,10 +162,10 @@ theorem diag_inv_mulVec {n : Nat} (d u : Fin n → K) :
 /-- **`MatrixATADSolver.solve`, vector right-hand side**: on whichever path the code takes, the returned
     `x` solves the documented system `(Aᴴ W A + D) x = b`, given the contract of the factorisation
     (`fsW`/`fsD` invert the matrix that was factorised) and, on the Woodbury path, non-zero `D`, `W`. -/
-theorem atad_solve_spec {m n : Nat} (s : ATAD K m n) (fsW : Vec K m → Vec K m) (fsD : Vec K n → Vec K n) (b : Vec K n)
+theorem atad_solve_spec (hz : LawfulIsZero K) {m n : Nat} (s : ATAD K m n) (fsW : Vec K m → Vec K m) (fsD : Vec K n → Vec K n) (b : Vec K n)
     (hfsW : ∀ d, s.D = .diag d → ∀ c, mulVec (gWoodbury s.A d s.W) (fsW c) = c)
     (hfsD : ∀ c, mulVec (gDirect s.A s.D s.W) (fsD c) = c)
-    (hnz : ∀ d, s.D = .diag d → m < n → (∀ k, d k ≠ 0) ∧ (∀ i, s.W i ≠ 0)) :
+    (hnz : ∀ d, s.D = .diag d → s.useWoodbury = true → ∀ k, d k ≠ 0) :
     specLhs s *ᵥ (s.solve fsW fsD b) = b := by
   have hdirect : specLhs s *ᵥ fsD b = b := by
     rw [← gDirect_eq_spec, ← mulVec_eq]; exact hfsD b
@@ -159,8 +175,12 @@ theorem atad_solve_spec {m n : Nat} (s : ATAD K m n) (fsW : Vec K m → Vec K m)
   | diag d =>
     simp only [ATAD.solve]
     split
-    · rename_i hmn
-      obtain ⟨hd, hW⟩ := hnz d rfl hmn
+    · rename_i hwb
+      have hd := hnz d rfl hwb
+      have hW : ∀ i, W i ≠ 0 := by
+        have : allNonzero W = true := by
+          simp only [ATAD.useWoodbury, Bool.and_eq_true] at hwb; exact hwb.2
+        exact (allNonzero_iff hz W).1 this
       set w := fsW (mulVec A fun k => b k / d k) with hw
       have hc := hfsW d rfl (mulVec A fun k => b k / d k)
       dsimp only at hc
@@ -178,11 +198,11 @@ theorem diag_inv_mul {n k : Nat} (d : Fin n → K) (u : Matrix (Fin n) (Fin k) K
   rw [Matrix.diagonal_mul, Matrix.of_apply, div_eq_mul_inv, mul_comm]
 
 /-- **`MatrixATADSolver.solve`, 2-D right-hand side** -/
-theorem atad_solveM_spec {m n k : Nat} (s : ATAD K m n) (fsW : Mat K m k → Mat K m k) (fsD : Mat K n k → Mat K n k)
+theorem atad_solveM_spec (hz : LawfulIsZero K) {m n k : Nat} (s : ATAD K m n) (fsW : Mat K m k → Mat K m k) (fsD : Mat K n k → Mat K n k)
     (b : Mat K n k)
     (hfsW : ∀ d, s.D = .diag d → ∀ c, matMul (gWoodbury s.A d s.W) (fsW c) = c)
     (hfsD : ∀ c, matMul (gDirect s.A s.D s.W) (fsD c) = c)
-    (hnz : ∀ d, s.D = .diag d → m < n → (∀ k, d k ≠ 0) ∧ (∀ i, s.W i ≠ 0)) :
+    (hnz : ∀ d, s.D = .diag d → s.useWoodbury = true → ∀ k, d k ≠ 0) :
     (specLhs s * Matrix.of (s.solveM fsW fsD b) : Matrix (Fin n) (Fin k) K) = Matrix.of b := by
   have hdirect : (specLhs s * Matrix.of (fsD b) : Matrix (Fin n) (Fin k) K) = Matrix.of b := by
     rw [← gDirect_eq_spec, ← matMul_eq]; exact hfsD b
@@ -192,8 +212,12 @@ theorem atad_solveM_spec {m n k : Nat} (s : ATAD K m n) (fsW : Mat K m k → Mat
   | diag d =>
     simp only [ATAD.solveM]
     split
-    · rename_i hmn
-      obtain ⟨hd, hW⟩ := hnz d rfl hmn
+    · rename_i hwb
+      have hd := hnz d rfl hwb
+      have hW : ∀ i, W i ≠ 0 := by
+        have : allNonzero W = true := by
+          simp only [ATAD.useWoodbury, Bool.and_eq_true] at hwb; exact hwb.2
+        exact (allNonzero_iff hz W).1 this
       set w := fsW (matMul A fun i l => b i l / d i) with hw
       have hc := hfsW d rfl (matMul A fun i l => b i l / d i)
       dsimp only at hc
